@@ -1,6 +1,19 @@
 """HIST engine with every op family mixed in."""
-from .hist import Hist
+from .hist import MIX
+from .hist_arith import HistArith
+
+_ARITH_MIX = {'new': 3, 'add_gate': 5, 'gadget': 22, 'copy': 1, 'rename': 1, 'connect': 2, 'mark_output': 1,
+              'into_bench': 1, 'remove_gate': 1, 'replace_inputs': 1, 'set_outputs': 1}
+for _p in ('C07', 'C08', 'C09'):
+    MIX[_p] = dict(_ARITH_MIX)
 
 
-class HistAll(Hist):
-    pass
+class HistAll(HistArith):
+    def gen(self, rng, prop, tier, run_index):
+        run = super().gen(rng, prop, tier, run_index)
+        if prop in ('C07', 'C08', 'C09'):
+            # fewer, heavier ops per run; at most a handful of gadgets
+            run['ops'] = run['ops'][: rng.randint(4, 10)]
+            if not any(o['k'] == 'gadget' for o in run['ops']):
+                run['ops'].append({'k': 'gadget', 's': rng.getrandbits(48)})
+        return run
